@@ -319,9 +319,10 @@ def c05(c):
     c.sample_events(files, 2, keep=lambda e: e["ev"] == "commit" and e["cls"].startswith("digit"))
     # GenerateRandomPoints for other lengths, PrecompPoint with every window size, the extended-coordinate helpers (spec/core/Misc.tla)
     c.count_classes(misc_run(c, "c05"), misc_class)
-    return c.finish(rule="digit-class programs (basis position class x window index x digit class {0,1,half-1,half,half+1,max-1,max} x carry-chain length {0,1,2,5} x rest zero/random), "
+    return c.finish(rule="digit-class programs (basis position class x window index x digit class {0,1,half-1,half,half+1,max-1,max} x carry-chain length {0,1,2,4,5,8,9,16} x rest zero/random), "
                          "vector classes (random, ones, r-1, single hot coefficient, first five, small, empty) x lengths {0,1,5,6,255,256}, linearity programs, table rows read through the hook, "
-                         "and the CRS derivation; distinct = distinct (kind, class, indices, values)", min_events=500)
+                         "the CRS derivation, one slice committed repeatedly after in-place changes, the configuration built under taskset with 3 (thorough 1,3,5,7) CPUs; GenerateRandomPoints for other lengths, "
+                         "PrecompPoint with window sizes 1..16 and the extended-coordinate helpers (misc family); distinct = distinct (kind, class, indices, values)", min_events=500)
 
 
 # ------------------------------------------------------------------------------------------ C09
